@@ -28,9 +28,11 @@ YDOC1 = "a: 1\nb: [3, 1, 2]\nc: {z: 1, y: 2}\ns: plain ${NOPE_X} text\n"
 YDOC2 = "# lead\n---\na: 7\nb: [b, a]\nc: {k: v}\ns: other\n---\na: 8\nb: []\nc: {}\ns: ''\n"
 YDOC3 = "---\n# only comment after start\nx: &anc {p: 1}\ny: *anc\nb: [2, 2, 1]\na: q\nc: {b: 1, a: 2}\ns: t\n"
 YDOC4 = "# only a comment\n"
+YDOC6 = "n: [1, 2]\na: 1\n---\nn: [10]\na: 2\n---\nn: [5, 5]\na: 3\n"
+YDOC7 = "n: [4]\na: 7\n"
 YDOC5 = "y: *anc\n"      # alias without anchor: an error unless anchors leak from an earlier stream
 INPUTS = {
-    "yaml": [YDOC1, YDOC2, YDOC3, YDOC4, YDOC5, ""],
+    "yaml": [YDOC1, YDOC2, YDOC3, YDOC4, YDOC5, YDOC6, YDOC6, YDOC7, ""],
     "json": ['{"a": 1, "b": [2, 1], "c": {"y": 1, "x": 2}, "s": "j"}', '{"a": 5, "b": [], "c": {}, "s": ""} {"a": 6, "b": [1], "c": {"q": 1}, "s": "k"}', '{"a": 1} {bad'],
     "xml": ["<r><a>1</a><b>x</b><b>y</b><c><y>1</y></c><s>t</s></r>", "<?xml version=\"1.0\"?>\n<!-- c -->\n<a>2</a>", "<a>1</a><b>"],
     "props": ["a = 1\nb.0 = x\nc.y = 2\ns = p\n", "# c\na=2\n"],
@@ -49,6 +51,10 @@ EXPRS = [
     ".c | to_yaml | from_yaml", "explode(.)", "... comments=\"\"", ".b | reverse", ".b | unique", ".. style=\"flow\"",
     "(.b | sort) as $s | $s", ".b | sort | .[0]", "document_index", "reduce .b[] as $i (0; . + 1)", ".x.p",
     ".b[] as $i ireduce (0; . + 1)", ".a | | .b",
+    # in-place updates of literals / accumulators that live in the parsed tree
+    ".sum = (.n[] as $i ireduce (0; . += $i))", ".n[] as $i ireduce (0; . += $i)", ".a as $v | (0 | . += $v)",
+    ".k = (1 | . *= 2)", "with(.k; . = (3 | . -= 1))", ".k = (.a as $v | (100 | . -= $v))",
+    ".n[] as $i ireduce (0; . += $i)", ".k = (1 | . *= 2)",
 ]
 GENERIC = [".", ".a", ".a, .s", "keys", "to_entries", ".s | envsubst(ne)", "with(envsubst)", ".a = 5", "del(.a)", ". as $x | $x.a",
            "... comments=\"\"", "explode(.)", "sort_keys(.)", ".[0]", "length", ".. | select(tag == \"!!str\")", "to_json(0)", "sort_by(.a)"]
@@ -355,6 +361,15 @@ def run(chk):
         [{"expr": ".b | sort", "input": YDOC1, "in": "yaml", "out": "yaml", "all": False, "reuse_tree": True, "reuse_dec": True, "pf": 0},
          {"expr": ".b | sort", "input": YDOC3, "in": "yaml", "out": "json", "all": False, "reuse_tree": True, "reuse_dec": True, "pf": 1},
          {"expr": ".b | sort", "input": YDOC1, "in": "yaml", "out": "yaml", "all": False, "reuse_tree": True, "reuse_dec": True, "pf": 0}],
+    ]
+    def st(expr, inp, **kw):
+        d = {"expr": expr, "input": inp, "in": "yaml", "out": "yaml", "all": False, "reuse_tree": True, "reuse_dec": False, "pf": 0}
+        d.update(kw)
+        return d
+    fixed += [
+        [st(".n[] as $i ireduce (0; . += $i)", YDOC7), st(".n[] as $i ireduce (0; . += $i)", YDOC7), st(".n[] as $i ireduce (0; . += $i)", YDOC6)],
+        [st(".k = (1 | . *= 2)", YDOC7, out="json"), st(".k = (1 | . *= 2)", YDOC7, out="json", all=True), st(".k = (1 | . *= 2)", YDOC7, out="json")],
+        [st(".a as $v | (0 | . += $v)", YDOC6, reuse_tree=False), st(".a as $v | (0 | . += $v)", YDOC7, reuse_tree=False)],
     ]
     histories = list(fixed)
     while len(histories) < nh:
